@@ -3,8 +3,10 @@ package c16
 import (
 	"context"
 	"fmt"
+	"runtime"
 	"runtime/debug"
 	"sort"
+	"strings"
 	"time"
 
 	spectypes "github.com/bloxapp/ssv-spec/types"
@@ -369,7 +371,7 @@ func (m *model) consume(step string, entries []logEntry, tc *tickCtx) *prog.Fail
 					m.classes["voided:refetched-and-dispatched"] = true
 					continue
 				}
-				sig := "missed-after-" + vKind
+				sig := "missed-after-notice"
 				switch { // witness circumstances since the assignment was last fetched
 				case vDrift:
 					sig = "missed-after-notice-with-clock-behind-ticker"
@@ -406,6 +408,35 @@ func fmtSet(s map[dkey]bool) string {
 }
 
 // ---- interpreter ----------------------------------------------------------------------------
+
+// hookCtx is the context handed to HandleDuties. It is the harness' cancelable context (Value and
+// Done are the inner ones, so derived contexts attach to it directly, without helper goroutines);
+// a Done() call made by HandleDuties itself, i.e. on entering its select, first waits for the
+// interpreter to take note that the handler is idle.
+type hookCtx struct {
+	context.Context
+	idle chan struct{}
+}
+
+func (c *hookCtx) Done() <-chan struct{} {
+	if calledByHandleDuties() {
+		select {
+		case c.idle <- struct{}{}:
+		case <-c.Context.Done():
+		}
+	}
+	return c.Context.Done()
+}
+
+func calledByHandleDuties() bool {
+	pcs := make([]uintptr, 4)
+	n := runtime.Callers(3, pcs) // skip Callers, calledByHandleDuties, Done
+	if n == 0 {
+		return false
+	}
+	fr, _ := runtime.CallersFrames(pcs[:n]).Next()
+	return strings.HasSuffix(fr.Function, ").HandleDuties")
+}
 
 func expandFetch(p *Prog) {
 	var out []FetchSpec
@@ -446,6 +477,7 @@ func run(p Prog) *prog.Result {
 
 	ctx, cancel := context.WithCancel(context.Background())
 	done := make(chan struct{})
+	hctx := &hookCtx{Context: ctx, idle: make(chan struct{})}
 	var hpanic string
 	started := false
 	defer func() {
@@ -483,7 +515,7 @@ func run(p Prog) *prog.Result {
 				hpanic = fmt.Sprintf("%v\n%s", r, debug.Stack())
 			}
 		}()
-		h.HandleDuties(ctx)
+		h.HandleDuties(hctx)
 	}()
 
 	dead := func() *prog.Result {
@@ -492,11 +524,12 @@ func run(p Prog) *prog.Result {
 		}
 		return finish(m.failf("handler-exited", "HandleDuties returned although its context was not cancelled"))
 	}
-	// sentinel: a reorg notice with neither flag set is a no-op in all three handlers; its send can
-	// only complete when the handler is back in its select, i.e. has finished the previous event.
+	// "handler finished the event": each handler's loop is `for { select { case <-ctx.Done(): ...` and the
+	// channel operands of a select are evaluated on entering it, so ctx.Done() is called by HandleDuties
+	// itself exactly once per loop iteration. hookCtx turns that call into a rendezvous.
 	sentinel := func() bool {
 		select {
-		case reorgCh <- duties.ReorgEvent{Slot: phase0Slot(w.clock.Load())}:
+		case <-hctx.idle:
 			return true
 		case <-done:
 			return false
